@@ -94,3 +94,55 @@ package middleware
 //@   ensures !cancelled(old(ctxOf(msg))) ==> !cancelled(ctxOf(msg)) [context-not-left-cancelled]
 //@   assert @call:h: msg.ctx != nil && ctxparent(msg.ctx) == old(ctxOf(msg)) && ctxtimeout(msg.ctx) == timeout && (forall k any :: ctxval(msg.ctx, k) == ctxval(old(ctxOf(msg)), k)) [deadline-visible-during-the-call]
 //@   panics-ensures panicked(H, old(calls(H))) [only-the-handler-panics]
+
+//@ func MessageCorrelationID
+//@   requires message != nil
+//@   nopanic
+//@   pure
+//@   ensures result == message.Metadata[CorrelationIDMetadataKey] [reads-the-key]
+
+//@ func SetCorrelationID
+//@   requires msg != nil [panics-otherwise-nil-message]
+//@   maypanic
+//@   ensures old(msg.Metadata[CorrelationIDMetadataKey]) != "" ==> metaKept(msg) [never-overwritten]
+//@   ensures old(msg.Metadata[CorrelationIDMetadataKey]) == "" ==> has(msg.Metadata, CorrelationIDMetadataKey) && msg.Metadata[CorrelationIDMetadataKey] == id && (forall k string :: k != CorrelationIDMetadataKey ==> has(msg.Metadata, k) == old(has(msg.Metadata, k)) && msg.Metadata[k] == old(msg.Metadata[k])) [set-when-missing]
+//@   panics-ensures msg.Metadata == nil [panics-only-on-nil-metadata]
+//@   modifies map(msg.Metadata)
+
+//@ spec outMeta(H0 int, j int) message.Metadata := ret(H, 0, H0)[j].Metadata
+
+//@ func CorrelationID$1
+//@   requires message != nil && h != nil
+//@   callee H = h
+//@   maypanic
+//@   ensures calls(H) == old(calls(H)) + 1 && result0 == ret(H, 0, old(calls(H))) && result1 == ret(H, 1, old(calls(H))) [result-passed-through]
+//@   ensures forall j int :: 0 <= j && j < len(result0) ==> result0[j].Metadata[CorrelationIDMetadataKey] == (old(result0[j].Metadata[CorrelationIDMetadataKey]) != "" ? old(result0[j].Metadata[CorrelationIDMetadataKey]) : old(message.Metadata[CorrelationIDMetadataKey])) [id-copied-where-missing-never-overwritten]
+//@   ensures forall j int, k string :: 0 <= j && j < len(result0) && k != CorrelationIDMetadataKey ==> has(result0[j].Metadata, k) == old(has(result0[j].Metadata, k)) && result0[j].Metadata[k] == old(result0[j].Metadata[k]) [other-keys-untouched]
+//@   inv loop 1: producedMessages == ret(H, 0, old(calls(H))) && err == ret(H, 1, old(calls(H))) && calls(H) == old(calls(H)) + 1 && correlationID == old(message.Metadata[CorrelationIDMetadataKey]) [locals-stable]
+//@   inv loop 1: forall j int :: 0 <= j && j < len(producedMessages) ==> (old(producedMessages[j].Metadata[CorrelationIDMetadataKey]) != "" ==> producedMessages[j].Metadata[CorrelationIDMetadataKey] == old(producedMessages[j].Metadata[CorrelationIDMetadataKey])) && (producedMessages[j].Metadata[CorrelationIDMetadataKey] == old(producedMessages[j].Metadata[CorrelationIDMetadataKey]) || producedMessages[j].Metadata[CorrelationIDMetadataKey] == correlationID) [never-overwritten]
+//@   inv loop 1: forall j int :: 0 <= j && j <= rangeindex ==> producedMessages[j].Metadata[CorrelationIDMetadataKey] == (old(producedMessages[j].Metadata[CorrelationIDMetadataKey]) != "" ? old(producedMessages[j].Metadata[CorrelationIDMetadataKey]) : correlationID) [processed-have-the-id]
+//@   inv loop 1: forall j int, k string :: 0 <= j && j < len(producedMessages) && k != CorrelationIDMetadataKey ==> has(producedMessages[j].Metadata, k) == old(has(producedMessages[j].Metadata, k)) && producedMessages[j].Metadata[k] == old(producedMessages[j].Metadata[k]) [other-keys-untouched]
+//@   inv loop 1: forall j int :: 0 <= j && j < len(producedMessages) ==> producedMessages[j].Metadata == old(producedMessages[j].Metadata) [same-maps]
+
+// ---- retry (C12) ----
+
+//@ spec maxRetries(n int) int := n >= 1 ? n : 1
+
+//@ func (Retry).Middleware$1
+//@   requires msg != nil && h != nil && r.MaxRetries < 9223372036854775807
+//@   callee H = h
+//@   callee HOOK = r.OnRetryHook : total
+//@   maypanic
+//@   ensures calls(H) >= old(calls(H)) + 1 && calls(H) <= old(calls(H)) + 1 + maxRetries(r.MaxRetries) [attempts-bounded]
+//@   ensures forall j int :: old(calls(H)) <= j && j < calls(H) - 1 ==> ret(H, 1, j) != nil [every-earlier-attempt-failed]
+//@   ensures result1 == nil ==> ret(H, 1, calls(H) - 1) == nil && result0 == ret(H, 0, calls(H) - 1) [first-success-wins]
+//@   ensures result1 != nil ==> result1 == ret(H, 1, calls(H) - 1) [last-error-kept]
+//@   ensures r.OnRetryHook != nil ==> (forall j int :: 0 <= j && j < calls(HOOK) - old(calls(HOOK)) ==> arg(HOOK, 0, old(calls(HOOK)) + j) == j + 1 && arg(HOOK, 1, old(calls(HOOK)) + j) == sret(NB, 0, old(ncalls(NB)) + j)) [hook-numbered-in-order-with-the-backoff-delay]
+//@   ensures r.OnRetryHook == nil ==> calls(HOOK) == old(calls(HOOK)) [no-hook-no-call]
+//@   inv loop 1: 1 <= retryNum && retryNum <= maxRetries(r.MaxRetries) && calls(H) == old(calls(H)) + retryNum && err != nil && err == ret(H, 1, calls(H) - 1) && producedMessages == ret(H, 0, calls(H) - 1) [attempt-accounting]
+//@   inv loop 1: forall j int :: old(calls(H)) <= j && j < calls(H) ==> ret(H, 1, j) != nil [all-attempts-so-far-failed]
+//@   inv loop 1: ncalls(NB) == old(ncalls(NB)) + retryNum - 1 && ncalls(TA) == old(ncalls(TA)) + retryNum - 1 && recvs(timer) == old(recvs(timer)) + retryNum - 1 [one-backoff-and-one-timer-per-retry]
+//@   inv loop 1: (r.OnRetryHook != nil ==> calls(HOOK) == old(calls(HOOK)) + retryNum - 1) && (r.OnRetryHook == nil ==> calls(HOOK) == old(calls(HOOK))) [one-hook-call-per-failed-retry]
+//@   inv loop 1: r.OnRetryHook != nil ==> (forall j int :: 0 <= j && j < retryNum - 1 ==> arg(HOOK, 0, old(calls(HOOK)) + j) == j + 1 && arg(HOOK, 1, old(calls(HOOK)) + j) == sret(NB, 0, old(ncalls(NB)) + j)) [hook-log]
+//@   assert @call:h#2: recvs(timer) == old(recvs(timer)) + retryNum && ncalls(TA) == old(ncalls(TA)) + retryNum && sarg(TA, 0, ncalls(TA) - 1) == sret(NB, 0, ncalls(NB) - 1) && ncalls(NB) == old(ncalls(NB)) + retryNum [waits-for-the-backoff-timer-before-each-retry]
+//@   panics-ensures panicked(H, calls(H) - 1) [only-the-handler-panics]
